@@ -43,3 +43,13 @@ Print Assumptions C10_shutdown_clean.
 Theorem C10_invariant_reachable : forall n l, Inv (run (init_pool n) l).
 Proof. intros n l. apply run_inv. apply init_inv. Qed.
 Print Assumptions C10_invariant_reachable.
+
+(* self-healing, as progress of the canonical schedule (the one that is run against the real pool): a provider waiting for
+   the peer with k free permits besides its own reaches full strength after k + 1 successful attempts - for every pool
+   size and every k *)
+Theorem C10_heals : forall k p,
+  cancelled p = false -> ph p = Waiting -> queue p = [] -> free p = k -> free p + 1 + sessions p = size p ->
+  let p' := Nat.iter (S k) offer_good p in
+  sessions p' = size p /\ ph p' = Idle /\ free p' = 0 /\ cancelled p' = false.
+Proof. exact heals. Qed.
+Print Assumptions C10_heals.
